@@ -103,9 +103,18 @@ def ctx(c):
     return c
 
 
+def _ctx(c):
+    """contexts argument: {"empty": d} stands for an array with zero rows and d columns."""
+    if isinstance(c, dict) and "empty" in c:
+        return np.zeros((0, c["empty"]))
+    return c
+
+
 def apply_op(mab, op, catch=True):
     """Apply one op through the public API; return the canonical output (None for commands)."""
     name = op[0]
+    if name in ("fit", "partial_fit") and isinstance(op[3], dict):
+        op = [op[0], np.asarray(op[1]), np.asarray(op[2], dtype=float), _ctx(op[3])]
     try:
         if name == "fit":
             mab.fit(op[1], op[2], op[3]) if op[3] is not None else mab.fit(op[1], op[2])
